@@ -183,7 +183,7 @@ class PairedEngine(Engine):
 class C06Engine(PairedEngine):
     pid = "C06"
     profile = "C06"
-    RUNS = (900, 20000)
+    RUNS = (2500, 80000)
     rule = ("history H of >=2 apps sharing nameplate names, side strings and message contents, versus H with every "
             "step of the other apps' connections removed (same clock steps, restarts and sweeps); compared: all frames "
             "of the kept app's connections and its channel/usage rows at the end (mailbox ids up to renaming); plus the "
@@ -260,7 +260,7 @@ class C06Engine(PairedEngine):
 class C11Engine(PairedEngine):
     pid = "C11"
     profile = "C11"
-    RUNS = (900, 20000)
+    RUNS = (2500, 80000)
     rule = ("history with >=1 point at which all connections drop; world K keeps the Server object (only the periodic "
             "timer is re-started), world R stops the service and rebuilds it from the database files; compared: every "
             "frame after the first such point and the channel rows at the end; non-trivial = after a restart point some "
@@ -318,7 +318,7 @@ class C11Engine(PairedEngine):
 class C14Engine(PairedEngine):
     pid = "C14"
     profile = "C14"
-    RUNS = (900, 20000)
+    RUNS = (2500, 80000)
     DUP_CONN = 900000
     rule = ("history H and H' = H with one successfully answered claim/release/open/close re-sent, immediately "
             "afterwards and at the same virtual instant, on a fresh connection bound to the same app and side, which "
@@ -459,7 +459,7 @@ CONFIGS = [{"allow_list": al, "usage": us, "blur": bl}
 class C18Engine(PairedEngine):
     pid = "C18"
     profile = "C18"
-    RUNS = (500, 6000)
+    RUNS = (1200, 20000)
     rule = ("the same step list under {listing allowed, disallowed} x {no usage db, usage db} x {no blur, 7, 3600} "
             "(quick: 4 sampled configurations, thorough: all 12), keyed RNG; compared: every frame except the payload "
             "of `nameplates`, and the channel rows after every event; `list` answers are judged per world (live set / "
